@@ -121,7 +121,7 @@ def engine_b(v, tier, seed):
             cls = "trace:rejected:" + m.group(1) if m else "trace:" + detail.split(":")[0].split(" violated")[0].replace(" ", "-")
             v.failure(cls, {"class": cls, "trace": tp, "detail": detail, "seed": seed * 1000 + b})
     # vacuity and binding: every kind of event occurred, and a corrupted trace is rejected
-    need = ["pushed", "recursive", "popped", "c_skip", "c_mark", "c_hit_ok", "c_hit_err", "c_block", "c_wake_ok", "c_publish_ok", "c_publish_err", "end"]
+    need = ["pushed", "recursive", "popped", "lpushed", "lpopped", "c_skip", "c_mark", "c_hit_ok", "c_hit_err", "c_block", "c_wake_ok", "c_publish_ok", "c_publish_err", "end"]
     missing = [k for k in need if stats["event_kinds"].get(k, 0) == 0]
     if missing and not v.violations:
         raise vlib.ToolError("trace validation is vacuous: no event of kind %s recorded" % missing)
@@ -143,9 +143,10 @@ def run(tier, seed):
     t0 = time.time()
     v = vlib.Verdict(PID)
     q = tier == "quick"
-    mc_cfgs = ["Resolver_mc2.cfg", "Resolver_mc3.cfg", "Resolver_live.cfg"]
-    gen_cfgs = ["Resolver_gen21q.cfg" if q else "Resolver_gen21.cfg", "Resolver_gen22.cfg", "Resolver_gen31.cfg"]
-    wits = [("Resolver_w_shared_chain.cfg", "shared_chain"), ("Resolver_w_cache_wait.cfg", "cache_wait_unbounded")]
+    mc_cfgs = ["Resolver_mc2.cfg", "Resolver_mc3.cfg", "Resolver_mcdir.cfg", "Resolver_live.cfg"]
+    gen_cfgs = ["Resolver_gen21q.cfg" if q else "Resolver_gen21.cfg", "Resolver_gen22.cfg", "Resolver_gen31.cfg", "Resolver_gendir.cfg"]
+    wits = [("Resolver_w_shared_chain.cfg", "shared_chain"), ("Resolver_w_cache_wait.cfg", "cache_wait_unbounded"),
+            ("Resolver_w_loading_pops_last.cfg", "loading_pops_last")]
     tlc_runs, cov = [], {}
     states = trans = 0
     cases = []
@@ -168,7 +169,7 @@ def run(tier, seed):
             states += r["distinct"]; trans += r["generated"]
             cases += cs
         wit = {d: f.result()["violation"] for d, f in f_w}
-    for act in ("DoGuardEnter", "DoCacheEnter", "DoWake", "DoCachePublish", "DoGuardExit"):
+    for act in ("DoGuardEnter", "DoCacheEnter", "DoWake", "DoCachePublish", "DoGuardExit", "DoLoadEnter", "DoLoadExit"):
         if cov.get(act, 0) == 0:
             raise vlib.ToolError("vacuous TLC run: action %s never taken" % act)
     for d, viol in wit.items():
